@@ -5,6 +5,12 @@
 # evidence goes to a scratch directory. Exit status: 0 if every check stayed silent (mutant missed),
 # 1 if at least one reported a VIOLATION (mutant detected), 2 on machinery errors.
 tree="$1"; tier="$2"; shift 2
+# One mutant run at a time: two concurrent runs sharing a target-*-mut directory defeat the mtime
+# refresh below (the later build's artefacts are newer than the earlier run's touched sources).
+if [ -z "$RUN_MUTANT_LOCKED" ]; then
+  export RUN_MUTANT_LOCKED=1
+  exec flock /dev/shm/run_mutant.lock "$0" "$tree" "$tier" "$@"
+fi
 ev=/dev/shm/mut-evidence-$$; mkdir -p "$ev"
 # cargo decides freshness by mtime: files of this tree may be OLDER than the artefacts a previous
 # mutant left in target-*-mut, which would silently keep the previous mutant's code for crates this
